@@ -103,8 +103,8 @@ class Heap:
     def havoc_at(self, name, refs, tag):
         """forget the value of field `name` at the given objects only (everything else keeps its value)"""
         a = self.arr(name); so = self.fsort(name)
-        for r in refs: a = z3.Store(a, r, fresh('hv_' + name + '_' + tag, so))
-        self.f[name] = a
+        for r in refs: a = z3.Store(a, r, fresh('hv_' + name + '_' + tag, so)); REC_LOC.setdefault(name, []).append(r)
+        self.f[name] = a; REC.add(name)
     def havoc(self, names, tag):
         for nme in names:
             self.f[nme] = fresh('H_' + nme + '_' + tag, z3.ArraySort(Ref, self.fsort(nme))); REC.add(nme); REC_LOC.setdefault(nme, []).append(None)
@@ -151,7 +151,7 @@ class Engine:
         self.node = fn.node
         self.obs = []; self.exits = []; self.loopk = 0; self.callk = {}; self.mute = 0
         self.loop_ids = {}
-        for nd in ast.walk(self.node):
+        for nd in ast.walk(self.node):          # ast.walk order (breadth first): a sibling loop is numbered before a loop nested in an earlier one
             if isinstance(nd, ast.For): self.loop_ids.setdefault(id(nd), len(self.loop_ids))
         self.fields = dict(spec.fields)
     # -------------------------------------------------------------------------------------------- obligations
@@ -293,6 +293,7 @@ class Engine:
         if isinstance(e, ast.BinOp):
             a, b = self.ev(e.left, p), self.ev(e.right, p)
             if a.kind == 'str' and isinstance(e.op, ast.Add): return V('str', sconcat(a.term, b.term))
+            if a.kind == 'str' and isinstance(e.op, ast.Mod): return V('str', fresh('fmt', Str))          # '...' % x : opaque message text
             if a.kind == 'int' and b.kind == 'int':
                 if isinstance(e.op, ast.Add): return vint(a.term + b.term)
                 if isinstance(e.op, ast.Sub): return vint(a.term - b.term)
@@ -592,7 +593,7 @@ class Engine:
             for nme in wn:                      # locals assigned in the body hold arbitrary values in an arbitrary iteration
                 if nme in d.env and (d.env[nme].kind in ('int', 'bool', 'str', 'ref') or d.env[nme].kind.startswith('list[')):
                     c = fresh(f'dry_{nme}', sort_of(d.env[nme].kind)); dry_syms.add(c.get_id()); d.env[nme] = V(d.env[nme].kind, c)
-            bindf(d, di); self.block(s.body, d)
+            bindf(d, di); d.env[f'$i{k}'] = vint(di); self.block(s.body, d)
         finally:
             self.mute -= 1
         wf = set(REC); locs = {k_: list(v_) for k_, v_ in REC_LOC.items()}
@@ -600,7 +601,9 @@ class Engine:
         for k_, v_ in locs.items(): REC_LOC.setdefault(k_, []).extend(v_)
         if '$alloc' in wf:
             wf.discard('$alloc')
-            if not getattr(self.spec, 'loops_may_allocate', False): raise Unsupported(f'allocation inside loop {k}')
+            if not getattr(self.spec, 'loops_may_allocate', True): raise Unsupported(f'allocation inside loop {k}')
+            # the allocation map is left unchanged across the loop: objects allocated inside are then merely not known to be distinct
+            # from later allocations (fewer hypotheses: sound)
         entry_arrays = {p.heap.arr(f).get_id() for f in wf}
         def invariant_ref(r):
             """the object written is the same in every iteration: its term mentions no per-iteration symbol, no heap update, and reads
@@ -636,7 +639,7 @@ class Engine:
         b = p.fork(); havoc(b, 'i'); i = fresh(f'i{k}', I); b.pc += [0 <= i, i < n]
         ch = Ctx('hyp')
         for label, g in inv(self, ch, b, pre, i): b.pc.append(g)
-        b.facts += ch.schem; bindf(b, i)
+        b.facts += ch.schem; bindf(b, i); b.env[f'$i{k}'] = vint(i)            # the loop index is visible to inner invariants as pre.env['$i<k>']
         for o in self.block(s.body, b):
             if o.kind in ('next', 'continue'):
                 for label, g in inv(self, Ctx('goal'), o.path, pre, i + 1): self.emit(o.path, f'loop{k}-preserve:{label}', g, s.lineno)
@@ -724,9 +727,15 @@ class Spec:
     def bounds(self, E): return []            # list-length terms to bound in the refutation stage
     def exclusions(self, E, names): return []  # extra schematic hypotheses excluding known-finding classes
 
-def run_function(fn, spec):
-    """-> (engine, raw obligations).  Raises Unsupported when the function leaves the engine's subset."""
-    E = Engine(fn, spec); E.run(); return E
+def run_function(fn, spec, engine_cls=None):
+    """-> (engine, raw obligations).  Raises Unsupported when the function leaves the engine's subset or no longer matches the
+    shape the sidecar was written for (stale contract: a local the invariant mentions is gone, a loop has no invariant, ...)."""
+    E = (engine_cls or Engine)(fn, spec)
+    try: E.run()
+    except Unsupported: raise
+    except (KeyError, AttributeError, IndexError, TypeError, z3.Z3Exception) as e:
+        raise Unsupported(f'stale contract or unsupported shape: {type(e).__name__}: {e}')
+    return E
 
 def decide(E, spec, timeout=60000, B=2, exclude=()):
     """discharge every raw obligation of E: returns list of (label, status, seconds, detail, model_solver|None)"""
@@ -749,7 +758,7 @@ def discharge_rel(ob, spec, timeout=60000):
         keep = [sc for sc in ob.schem if any(sc.name.startswith(pfx) if pfx else sc.name == '' for pfx in rel)]
         if len(keep) < len(ob.schem):
             sub = RawOb(ob.label, ob.pc, keep, ob.goal, ob.line)
-            r, dt, n, s = discharge_typed(sub, timeout=min(timeout, 30000))
+            r, dt, n, s = discharge_typed(sub, timeout=min(timeout, 20000))
             if r == z3.unsat: return r, dt, n, s
     return discharge_typed(ob, timeout=timeout)
 
@@ -799,7 +808,7 @@ def _decide_one(i):
     except Exception as e:
         import traceback; return (i, 'error', 0.0, traceback.format_exc()[-600:], None)
 
-def decide_parallel(E, spec, timeout=60000, B=2, exclude=(), procs=16):
+def decide_parallel(E, spec, timeout=40000, B=2, exclude=(), procs=16):
     from vlib import core
     extra = spec.exclusions(E, exclude) if exclude else []
     for ob in E.obs: ob.schem = ob.schem + extra
@@ -921,7 +930,7 @@ def discharge_typed(ob, timeout=60000, rounds=3, extra_hyps=(), cap_per_var=40, 
     r = s.check(); return r, time.time() - t0, len(insts), s
 
 # ------------------------------------------------------------------------------------------------------------ glue to core.Report
-def verify(rep, prop, fn, spec, select=None, exclude=(), replay=None, fallback=None, timeout=60000, B=2, backend='z3-qf(typed-instantiation)'):
+def verify(rep, prop, fn, spec, select=None, exclude=(), replay=None, fallback=None, timeout=40000, B=2, backend='z3-qf(typed-instantiation)', engine_cls=None):
     """Generate and decide the obligations of one function under its sidecar contract and add them to the report.
        select(label) -> bool : which obligations belong to this property (loop-invariant and implicit-raise obligations always do)
        replay(model_values, label) -> dict(confirmed=..., ...) : native replay of a counter-model on the real code
@@ -929,7 +938,7 @@ def verify(rep, prop, fn, spec, select=None, exclude=(), replay=None, fallback=N
     from vlib import core
     rep.fn(fn)
     try:
-        E = run_function(fn, spec)
+        E = run_function(fn, spec, engine_cls)
     except Unsupported as e:
         ob = core.Ob(f'{prop}/{fn.name}/engine-subset', fn, 'pyvc', core.UNKNOWN, 0.0, detail=f'outside the engine subset: {e}', clause='function within the verified Python subset')
         fb = fallback('engine-subset') if fallback else None
